@@ -173,7 +173,9 @@ def run_impl_only(paths, extra="", timeout=1500):
     return out
 
 
-def run_both(paths, timeout=1500, impl_extra=""):
+def run_both(paths, timeout=None, impl_extra=""):
+    # a hang must show quickly: a shard normally takes a second or two
+    timeout = timeout or (240 if os.environ.get("VERIF_TIER_EFFECTIVE", "quick") == "quick" else 1500)
     """Run harness and driver on every shard, in parallel. Returns (impl_lines, model_lines, problems)."""
     jobs = []
     with ThreadPoolExecutor(max_workers=NPROC) as ex:
